@@ -85,6 +85,43 @@ pub fn replay_case(idx: usize, c: &Value, u: &Universe, rep: &mut Report) {
                 u.plan.clear();
                 cmp(u, jget(c, "exp"), r.is_ok(), n1 - n0, &d)
             }
+            "build" => {
+                // TrackBuilder: observations in order; Err as soon as one fails
+                let mut b = u.store.new_track(1);
+                for o in jarr(c, "obs") {
+                    let mut ob = ObservationBuilder::new(jint(o, "cls") as u64).observation_attributes(Val(jint(o, "v")));
+                    if let Some(up) = Upd::parse(jstr(o, "u")) {
+                        ob = ob.track_attributes_update(up);
+                    }
+                    b = b.observation(ob.build());
+                }
+                u.plan.set_fault(jstr(c, "fault"));
+                let r = b.build();
+                u.plan.clear();
+                let exp = jget(c, "exp");
+                match r {
+                    Ok(t) => {
+                        if !jbool(exp, "ok") {
+                            return Some(("ret:spec=false:impl=true".into(), json!({"impl": u.proj_track(&t)})));
+                        }
+                        let p = u.proj_track(&t);
+                        let e = jget(exp, "t");
+                        for k in ["id", "cnt", "tag", "st", "obs", "cls", "hist", "calls"] {
+                            if jget(e, k) != jget(&p, k) {
+                                return Some((format!("track.{}", k), json!({"spec": e, "impl": p})));
+                            }
+                        }
+                        None
+                    }
+                    Err(_) => {
+                        if jbool(exp, "ok") {
+                            Some(("ret:spec=true:impl=false".into(), json!({})))
+                        } else {
+                            None
+                        }
+                    }
+                }
+            }
             "merge2" => {
                 let a = mk(u, 2, jget(c, "s1"));
                 let b = mk(u, 3, jget(c, "s2"));
